@@ -102,6 +102,7 @@ type Replica struct {
 	Emitted []*model.Operation
 	// Panics counts recovered panics of API calls.
 	Panics int
+	skip   map[string]bool
 }
 
 // World is a set of replicas of one datatype and the server log.
@@ -225,7 +226,7 @@ func (w *World) SyncFinish(i int) (delivered int, err errors.OrdaError, panicked
 	r.inflight = false
 	var ops []*model.Operation
 	for j := r.infFrom; j < r.infTo; j++ {
-		if w.LogOwner[j] == i {
+		if w.LogOwner[j] == i || r.skip[opID(w.Log[j])] {
 			continue
 		}
 		ops = append(ops, proto.Clone(w.Log[j]).(*model.Operation))
@@ -323,3 +324,19 @@ func (w *World) DeliveredPrefix(i int) int {
 	}
 	return r.pulled
 }
+
+// SkipNext makes replica i treat the next n not-yet-delivered log entries owned by owner as
+// already delivered (used when the harness has delivered them directly).
+func (w *World) SkipNext(i, owner, n int) {
+	r := w.Reps[i]
+	if r.skip == nil {
+		r.skip = map[string]bool{}
+	}
+	src := w.Reps[owner]
+	em := src.Emitted
+	for _, op := range em[len(em)-n:] {
+		r.skip[opID(op)] = true
+	}
+}
+
+func opID(op *model.Operation) string { return fmt.Sprintf("%s:%d", op.ID.CUID, op.ID.Seq) }
